@@ -219,7 +219,7 @@ func runC02(r *mon.Run) {
 	})
 	r.FloorAccept("honest", 8)
 	r.FloorAccept("honest-json", 8)
-	for _, f := range []string{"context", "nonce", "issig", "sublist", "member-alone", "adaptive-splice"} {
+	for _, f := range []string{"context", "nonce", "issig", "sublist", "member-alone", "adaptive-splice", "contribution-error"} {
 		r.FloorFam(f, 8)
 	}
 	if r.Pick(3, 4) >= 2 {
@@ -399,6 +399,52 @@ func c02Session(r *mon.Run, jr *rand.Rand, s, s2 *session) {
 		}
 	}
 	must("splice", "whole list of session 1 under tuple 2", all, s.pks, s2.ctx, s2.nonce, s2.issig)
+	// a member whose challenge contribution cannot be computed (an index both disclosed and hidden; a response for the secret-key
+	// base in m_user_responses) rides along behind/between the honest members with the challenge and the secret-key response
+	// copied from a neighbour: it is bound to nothing and must make the list fail, at every position
+	for src, p := range s.list {
+		var bad gabi.Proof
+		switch q := p.(type) {
+		case *gabi.ProofD:
+			j := cloneD(q)
+			for i, v := range j.ADisclosed {
+				j.AResponses[i] = cp(v) // index i now in both maps; the disclosed value is free to be anything
+				j.ADisclosed[i] = add(v, bi(1000))
+				break
+			}
+			if len(j.ADisclosed) == 0 {
+				continue
+			}
+			bad = j
+		case *gabi.ProofU:
+			j := cloneU(q)
+			if j.MUserResponses == nil {
+				j.MUserResponses = map[int]*big.Int{}
+			}
+			j.MUserResponses[0] = bi(1)
+			bad = j
+		}
+		for pos := 0; pos <= n; pos++ {
+			pl := make(gabi.ProofList, 0, n+1)
+			pks := make([]*gabikeys.PublicKey, 0, n+1)
+			for i := 0; i <= n; i++ {
+				if i == pos {
+					pl, pks = append(pl, bad), append(pks, s.pks[src])
+				}
+				if i < n {
+					pl, pks = append(pl, cloneList(gabi.ProofList{s.list[i]})[0]), append(pks, s.pks[i])
+				}
+			}
+			desc := fmt.Sprintf("uncomputable copy of member %d inserted at position %d", src, pos)
+			r.Distinct(s.shape, "contribution-error", desc)
+			ok, pv, _ := verifyList(cloneList(pl), pks, s.ctx, s.nonce, s.issig, nil)
+			r.Eval("contribution-error", outcome(ok, pv))
+			if ok {
+				r.Violation("C02/unbound-member-accepted", fmt.Sprintf("a list verifies although it contains a member whose challenge contribution cannot be computed (%s; %s)", desc, s.shape),
+					map[string]any{"shape": s.shape, "desc": desc, "list": dumpList(pl)})
+			}
+		}
+	}
 	// members verified on their own entry points
 	for i, p := range s.list {
 		switch x := p.(type) {
